@@ -110,7 +110,7 @@ Section Run.
 
   (* why a token is outside the domain of the theorems (0: it is inside)
        1 the C15 per-query exclusion (class-body / class-level comprehension lookup: findings of C15)
-       2 a name that textually looks like a keyword argument (last element of a tuple target)
+       2 a plain name that textually looks like a keyword argument (does not occur in valid Python since 9405717)
        3 header expression not evaluated alike     4 first iterable of a comprehension not evaluated alike
        5 def / class name absent from its scope    6 class name that is also an attribute of the class
        7 defaulted parameter whose def name is rebound     8 an import PyName with a homonym import elsewhere
